@@ -16,7 +16,7 @@ def run(ctx):
     specs = list(cache_corr.TARGETED.items()) * ctx.n(2, 6)
     for wi in range(ctx.n(70, 1500) + len(specs)):
         spec = specs[wi][1] if wi < len(specs) else None
-        w = cache_corr.World(uj, rng, maxn=ctx.n(8, 10), spec=spec)
+        w = cache_corr.World(uj, rng, maxn=ctx.n(8, 10), spec=spec, normalising=(wi % 2 == 1))
         for step in range(ctx.n(4, 6)):
             output = rng.choice([None] + list(range(w.n)))
             fresh = cache_corr.random_fresh(w, rng)
@@ -31,10 +31,29 @@ def run(ctx):
             ctx.case((wi, step, tuple(str(x) for x in w.sigma()), output, fresh), nontrivial=len(w._stale_now) > 0,
                      sample={"meta": w.meta, "stale": sorted(w._stale_now), "dry_run_log": log[:20]} if wi == 2 and step == 1 else None)
             if res[0] == "ok":
+                # the same transform_physical (none / identity / one that adds an audit call and redirects the output) is
+                # given to the dry run and to the real run
+                def audit(*a):
+                    w.op("call", -1, a)
+                    return a[0] if a else None
+
+                def add_audit(pl, out):
+                    n = pl.call(audit, out) if out is not None else pl.call(audit)
+                    return pl, n
+                tp = rng.choice([None, lambda pl, out: (pl, out), add_audit])
+                ctx.count("transform_physical", "none" if tp is None else "audit" if tp is add_audit else "identity")
+                if tp is not None:
+                    res = w.run(output, fresh, dry_run=True, transform=tp)
+                    if [e for e in w.log if e[0] != "mtime"]:
+                        ctx.fail("dry-run-touches", "dry run (with transform_physical) performed %r" % ([(k, i) for k, i, _ in w.log if k != "mtime"][:5],), rep)
+                    if res[0] != "ok":
+                        continue
                 phys, outnode = res[1]
-                # self-contained: no node of the physical plan refers to the registry; stores are literal arguments
+                if outnode is not None and not phys.graph.has_node(outnode):
+                    ctx.fail("output-node-not-in-plan", "the output node returned by the dry run is not a node of the returned physical plan", rep)
+                    continue
                 clock = w.clock
-                resA = w.run(output, fresh, workers=rng.choice([1, 3]), transform=rng.choice([None, lambda pl, out: (pl, out)]))
+                resA = w.run(output, fresh, workers=rng.choice([1, 3]), transform=tp)
                 logA = sorted((k, i) for k, i, _ in w.log if k in ("call", "read", "write"))
                 afterA = [(s.v) for s in w.stores]
                 for s, (v, t) in zip(w.stores, sigma):
